@@ -57,6 +57,8 @@ def build(prog: Program):
                 sub.env[key.args.args[0].arg] = x
                 return sub.ev(key.body)
             return sorted(seq, key=keyf)
+        if name == "deque":
+            return deque(*[ev.ev(a) for a in call.args])
         if name == "list" and len(call.args) == 1:
             return list(ev.ev(call.args[0]))
         if name == "ForwardTsnChunk" and not call.args:
